@@ -78,6 +78,24 @@ def checkSource(source, components, maxindex):
     return source
 
 
+def parseUIntArray(text):
+    """Parse the text of an index list (``<p>``, ``<vcount>``) into an int32 array.
+
+    Values that are negative or do not fit into 32 bits are rejected instead
+    of silently wrapping around to some other index.
+
+    :param str text:
+      Whitespace separated list of unsigned integers
+
+    :rtype: numpy.array
+
+    """
+    values = numpy.fromstring(text, dtype=numpy.int64, sep=' ')
+    if values.size > 0 and (values.min() < 0 or values.max() > numpy.iinfo(numpy.int32).max):
+        raise DaeMalformedError('Index value out of range in "%s..."' % text.strip()[:40])
+    return values.astype(numpy.int32)
+
+
 def normalize_v3(arr):
     """Normalize a numpy array of 3 component vectors with shape (N,3)
 
